@@ -28,6 +28,9 @@ pub fn scopes(rep: &Report, checks: Checks) {
     let pool = ["a", "ab", "abc", "b"];
     let nt = if quick { named_trees(2, 2, &pool) } else { named_trees(3, 3, &pool) };
     run_structures(rep, "name-prefix family: member names drawn from {a, ab, abc, b} in every sibling-distinct way x all strategies x all selections", &nt, &all_strats, &cheap, checks, true);
+    // D3: pairs of special strings in one container
+    let pairs = pair_alphabet_trees();
+    run_structures(rep, "string-pair pass: every ordered pair of the string alphabet side by side in 5 container shapes x {Top, All, 2 Custom}", &pairs, &pair_strategies, &cheap, checks, false);
     // E: depth chains
     let ch = chains(if quick { 6 } else { 8 });
     run_structures(rep, "depth chains: all object/array patterns of a single nested path", &ch, &few_strategies, &rot, checks, true);
